@@ -767,8 +767,21 @@ func (n *normalizer) inlinable(c *callee, newcomers map[*types.Func]*callee) (ok
 		case *ast.LabeledStmt:
 			// labels are renamed per inlining site (bodyText)
 		case *ast.BranchStmt:
+			// a goto to a label of the body itself (left behind by an earlier round of inlining)
+			// is renamed with its label; any other goto is refused
 			if x.Tok == token.GOTO {
-				bad = "goto"
+				own := false
+				if x.Label != nil {
+					ast.Inspect(fd.Body, func(m ast.Node) bool {
+						if l, isL := m.(*ast.LabeledStmt); isL && l.Label.Name == x.Label.Name {
+							own = true
+						}
+						return true
+					})
+				}
+				if !own {
+					bad = "goto"
+				}
 			}
 		case *ast.DeferStmt:
 			if !top[x] || len(x.Call.Args) != 0 || !isPureExpr(x.Call.Fun) {
@@ -1788,6 +1801,39 @@ func stmtContext(path []ast.Node, call *ast.CallExpr) (kind string, stmt ast.Stm
 //
 // S (or T) is duplicated, which is harmless for behaviour; it is done only
 // for small blocks without labels or function literals.
+// hoistReceiverCall: for `return CALL.M(args...)` where CALL is the call to be
+// inlined and the receiver of the outermost call of the returned expression
+// (so it is evaluated before anything else in the statement), returns the
+// statement and its replacement `{ _hN := CALL; return _hN.M(args...) }`.
+func (n *normalizer) hoistReceiverCall(path []ast.Node, call *ast.CallExpr) (*ast.ReturnStmt, string) {
+	if len(path) < 4 {
+		return nil, ""
+	}
+	sel, ok := path[1].(*ast.SelectorExpr)
+	if !ok || ast.Node(sel.X) != ast.Node(call) {
+		return nil, ""
+	}
+	outer, ok := path[2].(*ast.CallExpr)
+	if !ok || ast.Node(outer.Fun) != ast.Node(sel) {
+		return nil, ""
+	}
+	rs, ok := path[3].(*ast.ReturnStmt)
+	if !ok || len(rs.Results) != 1 || ast.Node(rs.Results[0]) != ast.Node(outer) {
+		return nil, ""
+	}
+	n.seq++
+	name := fmt.Sprintf("_h%d", n.seq)
+	var args []string
+	for _, a := range outer.Args {
+		args = append(args, n.exprText(a))
+	}
+	ell := ""
+	if outer.Ellipsis.IsValid() {
+		ell = "..."
+	}
+	return rs, fmt.Sprintf("{\n%s := %s\nreturn %s.%s(%s%s)\n}", name, n.exprText(call), name, sel.Sel.Name, strings.Join(args, ", "), ell)
+}
+
 func (n *normalizer) splitShortCircuit(path []ast.Node, call *ast.CallExpr) (*ast.IfStmt, string) {
 	var child ast.Node = call
 	for i := 1; i < len(path); i++ {
@@ -2037,6 +2083,18 @@ func (n *normalizer) inlineRound() bool {
 				}
 			}
 			kind, stmt, nested := stmtContext(s.path, s.call)
+			if kind == "" {
+				// `return NEW(args).Method(more)`: the call is the first thing the statement
+				// evaluates; give its result a name first, the call is inlined in the next round
+				if rs, txt := n.hoistReceiverCall(s.path, s.call); rs != nil && !usedStmt[rs] {
+					if n.tryEdit(rs.Pos(), rs.End(), txt) {
+						usedStmt[rs] = true
+						changed = true
+						other++
+						continue
+					}
+				}
+			}
 			if kind == "" {
 				// right operand of && / || in an if condition: split the if first
 				if ifs, txt := n.splitShortCircuit(s.path, s.call); ifs != nil && !usedStmt[ifs] {
